@@ -214,6 +214,21 @@ Theorem C17_micro_save_private : forall (c : cfg) (sh1 sh2 : inst) (p : priv),
 Proof. exact save_private. Qed.
 Print Assumptions C17_micro_save_private.
 
+(* ... and then it commutes with every block of every other thread, hence can be postponed past any
+   number of them, up to the second half of the entry: for a thread that holds a selection of its own,
+   backend_context entry IS atomic (with C17_micro_atomic_ops: such schedules are atomic histories) *)
+Theorem C17_micro_save_commutes : forall (R : rules) (c : cfg) (b : bst) (t : tid) (a : aop),
+  athr a <> t -> p_tls (b_priv b t) <> None ->
+  beqv (astep R c (astep R c b (ASaveOp t)) a) (astep R c (astep R c b a) (ASaveOp t)).
+Proof. exact save_commutes. Qed.
+Print Assumptions C17_micro_save_commutes.
+
+Theorem C17_micro_save_sinks : forall (R : rules) (c : cfg) (t : tid) (others : list aop) (b : bst) (rest : list aop),
+  Forall (fun a => athr a <> t) others -> p_tls (b_priv b t) <> None ->
+  beqv (arun R c b (ASaveOp t :: others ++ rest)) (arun R c b (others ++ ASaveOp t :: rest)).
+Proof. exact save_sinks. Qed.
+Print Assumptions C17_micro_save_sinks.
+
 (* "backend_context entry is atomic" is refuted (repaired rules): a thread WITHOUT a selection of its
    own enters a non-local context while another thread completes a non-local set_backend between the
    entry's read and its write; a third thread then sees bka, and numpy after the exit - neither
